@@ -5,6 +5,18 @@ import os
 
 V = os.path.dirname(os.path.dirname(os.path.abspath(__file__)))
 CHECKS = {
+    'C15': ('model node tree (address = path of local addresses, lost interface takes its subtree): connectivity getters after start (incl. a table change during enumeration) and after each of 0-30 node-new/node-lost notices, one NODE_CHANGED_ACK(version) to the announcer per notice, a ping per board addressed to the model\'s current address or refused',
+            'simulated bus node table updated alongside scripted notices; announcers of depth <= 2',
+            'runtime monitoring: tree-model oracle over getter snapshots and decoded wire + ASan/UBSan'),
+    'C16': ('stop transcript vs. model per connected track output; link-time thread monitor (create/join exactly once, none alive after stop or failed start); heap conservation over six identical sessions (ASan allocator statistics, LSan); idempotent stop/start; probe session as session k vs. the same session in a fresh process (per-node transcripts, snapshots, return values)',
+            'pthread_create/join interposed with ld --wrap; __sanitizer_get_current_allocated_bytes; decoded message lists compared per node',
+            'runtime monitoring: lifecycle monitors (threads, heap, transcript, session equivalence) + ASan/LSan'),
+    'C19': ('per occupancy report of SecAck / non-SecAck boards the decoded wire at the next quiescent point without any flush step: exactly one mirror with identical number/payload, none for boards without feature 0x03>0; stalled or budget-blocked board: mirrors owed and delivered in order exactly once after release',
+            'a report counts from the quiescent point after it was fed; known finding: position mirror lacks the address bytes',
+            'runtime monitoring: per-event wire oracle at quiescent points + ASan/UBSan'),
+    'C20': ('order constraints and multiset equality over the decoded downlink transcript of a start and of bidib_send_sys_reset: FEATURE_SET only to connected configured boards and before SYS_ENABLE, GO to every connected track output, then every configured initial point/signal/peripheral aspect and train function exactly once (C09 encoding), nothing for absent boards',
+            'speed-0/all-zero CS_DRIVE and the library\'s own queries unconstrained; encoder of C09',
+            'runtime monitoring: transcript oracle (order + multiset) over decoded wire + ASan/UBSan'),
     'C14': ('generator emits configurations together with their abstract description: valid ones must be accepted and every enumeration getter and the initial snapshot must equal the description; each single-fault class of the statement (26 classes) applied at sampled applicable positions must give return value 1',
             'documented layout = key order/optional parts of example/config and the test configs; cross-kind collisions not generated',
             'runtime monitoring: description-vs-getter oracle over generated configurations and single-fault mutations + ASan/UBSan + lock monitor'),
